@@ -3,6 +3,7 @@ from __future__ import annotations
 
 import io
 import random
+import time
 import warnings
 
 from harness.common import Ck, coq_bool, coq_list, parse_coq_N_list
@@ -267,14 +268,15 @@ def eval_jobs(ck: Ck, jobs: list) -> list:
     from concurrent.futures import ThreadPoolExecutor
     if not jobs:
         return []
-    with ThreadPoolExecutor(max_workers=min(8, len(jobs))) as ex:
-        futs = [ex.submit(ck.coq_eval, IMPORTS, [expr], f'{name}_{k}', 900, PRE) for k, (name, expr) in enumerate(jobs)]
+    with ThreadPoolExecutor(max_workers=min(10, len(jobs))) as ex:
+        futs = [ex.submit(ck.coq_eval, IMPORTS, exprs if isinstance(exprs, list) else [exprs], f'{name}_{k}', 900, PRE)
+                for k, (name, exprs) in enumerate(jobs)]
         return [f.result() for f in futs]
 
 
 # ------------------------------------------------------------------------------------------------ correspondence: serialise
 def corr_serialise(ck: Ck):
-    n = ck.budget(400, 2000)
+    n = ck.budget(240, 2000)
     cases = []
     for i in range(n):
         rng = ck.rng
@@ -298,29 +300,29 @@ def corr_serialise(ck: Ck):
     jobs, parts = [], []
     for named in (False, True):
         sub = [(k, c) for k, c in enumerate(cases) if c[2] == named]
-        for lo in range(0, len(sub), 100):
-            part = sub[lo:lo + 100]
+        for lo in range(0, len(sub), 150):
+            part = sub[lo:lo + 150]
             lit = coq_list(
                 f'((({coq_chars(o["indent"])}, {coq_bool(o["indent_braces"])}, {coq_chars(o["start_indent"])}), '
                 f'{coq_tree(d[0]) if named else coq_doc(d)}), {coq_chars(t)})' for _, (d, o, _n, t, _x) in part)
             fn = 'ser_node_case' if named else 'ser_case'
-            jobs.append(('ser', f'bad_idx {fn} 0 {lit}'))
-            parts.append(('serialise', part))
-            lit = coq_list(f'({coq_tree(d[0]) if named else coq_doc(d)}, {coq_chars(x)})' for _, (d, o, _n, _t, x) in part)
-            jobs.append(('exp', f'bad_idx {"exp_node_case" if named else "exp_case"} 0 {lit}'))
-            parts.append(('export', part))
+            xlit = coq_list(f'({coq_tree(d[0]) if named else coq_doc(d)}, {coq_chars(x)})' for _, (d, o, _n, _t, x) in part)
+            jobs.append(('ser', [f'bad_idx {fn} 0 {lit}', f'bad_idx {"exp_node_case" if named else "exp_case"} 0 {xlit}']))
+            parts.append(part)
     return jobs, lambda results: finish_serialise(ck, cases, parts, results)
 
 
 def finish_serialise(ck: Ck, cases, parts, results) -> None:
     bad: list[int] = []
     xbad: list[int] = []
-    for (which, part), vals in zip(parts, results):
+    for part, vals in zip(parts, results):
         if vals is None:
-            ck.obligation(f'correspondence:{which}', False, 'model could not be evaluated')
-            ck.tie_broken.append(f'correspondence {which}: model evaluation failed')
+            for which in ('serialise', 'export'):
+                ck.obligation(f'correspondence:{which}', False, 'model could not be evaluated')
+                ck.tie_broken.append(f'correspondence {which}: model evaluation failed')
             return
-        (bad if which == 'serialise' else xbad).extend(part[i][0] for i in parse_coq_N_list(vals[0]))
+        bad.extend(part[i][0] for i in parse_coq_N_list(vals[0]))
+        xbad.extend(part[i][0] for i in parse_coq_N_list(vals[1]))
     ck.obligation('correspondence:export', not xbad,
                   f'{len(cases)} trees, export template interpreter (vm_compute) vs "".join(Keyvalues.export()), exact '
                   f'text: {len(xbad)} disagreements')
@@ -392,7 +394,7 @@ def gen_parse_text(rng: random.Random) -> tuple[str, str]:
 
 
 def corr_parse(ck: Ck):
-    n = ck.budget(1500, 6000)
+    n = ck.budget(1000, 6000)
     cases = []
     for i in range(n):
         if i < len(CORPUS_TEXT):
@@ -446,7 +448,7 @@ def corr_parse(ck: Ck):
     for k, c in enumerate(cases):
         chunk.append(k)
         size += len(c[0]) + 20
-        if len(chunk) >= 150 or size > 20000:
+        if len(chunk) >= 250 or size > 30000:
             flush()
     flush()
     return jobs, lambda results: finish_parse(ck, cases, parts, results)
@@ -683,7 +685,7 @@ SEARCH_CORPUS = [
 
 
 def search(ck: Ck) -> None:
-    n = ck.budget(4000, 30000)
+    n = ck.budget(3000, 30000)
     found: dict[str, tuple] = {}
     shrinks: dict[str, int] = {}
     shrunk_docs: set = set()
@@ -823,6 +825,9 @@ def run(ck: Ck) -> None:
         'names contain no CR/LF (excluded by the property); indent and start_indent consist of spaces and tabs',
         'parse is called with its default options; chunked delivery is searched, not modelled (see C03)',
     ]
+    stage: dict = {}
+    ck.extra['stage_wall_seconds'] = stage       # informative only: never influences a result
+    t_stage = time.time()
     ok_t = ck.translate('KVSer_gen', c01_kvser.translate)
     side = ck.extra.get('translated', {}).get('KVSer_gen', {})
     # the constant tables of the C03 tokenizer model (Text/TokGen.v over Gen/EscTables_gen.v, C02's translator): the
@@ -869,6 +874,8 @@ def run(ck: Ck) -> None:
         }, name='inst_refine'))
         if not all(inst.values()):
             ck.tie_broken.append('instance obligations over Gen/KVSer_gen.v: ' + ', '.join(k for k, v in inst.items() if not v))
+        stage['build+theorems+instances'] = round(time.time() - t_stage, 1)
+        t_stage = time.time()
         tie_tables(ck, side)
         # the correspondences: cases are generated sequentially (ck.rng), the model is evaluated on all chunks in
         # parallel coqc processes, results are consumed in order
@@ -878,7 +885,10 @@ def run(ck: Ck) -> None:
         for jobs, fin in pending:
             fin(results[at:at + len(jobs)])
             at += len(jobs)
+        stage['tables+correspondences'] = round(time.time() - t_stage, 1)
+    t_stage = time.time()
     search(ck)
+    stage['search'] = round(time.time() - t_stage, 1)
     keys = {v['key'] for v in ck.violations}
     # A failed obligation is explained by a concrete failing input on the same path:
     #  - a round-trip failure through serialise() explains the serialise-side template / escape-table obligations;
